@@ -1807,7 +1807,11 @@ def _hex_decode_to_slice(I, a, d):
     src = as_sbytes(a[0])
     dst = peel(a[1])
     err = lambda name: ERR(Adt("FromHexError", 0, name, []))     # noqa: E731
-    src = sb.resolve_symbytes(src, I.w) if hasattr(sb, "resolve_symbytes") else src
+    if src.has_kind(sb.SymByte) and all(isinstance(x, (bytes, sb.SymByte)) for x in src.segs):
+        # damaged digits: decide each symbolic byte against the 22 hex digits (anything else is an invalid character)
+        src = decide_symbytes(I, src, list(b"0123456789abcdefABCDEF"))
+        if src.has_kind(sb.SymByte):
+            return err("InvalidHexCharacter")
     if not src.is_concrete():
         # digest atoms are lower-case hex by construction: decode them back to the digest
         if len(src.segs) == 1 and isinstance(src.segs[0], sb.Atom) and src.segs[0].kind == "hex" and src.segs[0].a is None:
@@ -1911,3 +1915,15 @@ def _st_cmp(I, a, op):
 
 for _op in ("lt", "le", "gt", "ge"):
     T.trait("PartialOrd", _op, r"SystemTime$|Duration$")((lambda o: (lambda I, a, d: _st_cmp(I, a, o)))(_op))
+
+
+@T.trait("Deref", "deref", r"GenericArray$")
+def _generic_array_deref(I, a, d):
+    v = peel(a[0])
+    return BytesRef(v.as_sbytes(), "bytes")
+
+
+@T.trait("AsRef", "as_ref", r"GenericArray$")
+def _generic_array_as_ref(I, a, d):
+    v = peel(a[0])
+    return BytesRef(v.as_sbytes(), "bytes")
